@@ -2,6 +2,8 @@
 import itertools
 from fractions import Fraction as Fr
 
+from core.pool import pmap
+from core.runner import viol
 from harness import acheck
 from harness import families as F
 
@@ -137,7 +139,7 @@ def materials(total, q):
         "S": [["S", 2]],
     }
     if q:
-        for k in ("FFF", "P2x", "UL", "Fhalf"):
+        for k in ("FFF", "P2x", "Fhalf"):
             mats.pop(k)
     return mats
 
@@ -201,9 +203,51 @@ def with_stateless(cs, tier):
     return out
 
 
+def connect_ring_shapes():
+    """cycles of the connect phase: rings in which every component needs something from its predecessor before it can serve its successor
+    (initial data computed from the pulled input, or output metadata copied from the input), plus rings that one constant source breaks"""
+    outs = (("decl", "pull:i"), ("from_in:i", "const"), ("from_in:i", "pull:i"), ("arg", "pull:i"), ("decl", "const"))
+    ins = ("decl", "arg")
+    for n in (2, 3):
+        names = [chr(65 + k) for k in range(n)]
+        for om in itertools.product(outs, repeat=n):
+            for im in itertools.product(ins, repeat=n) if n == 2 else (("decl",) * n, ("arg",) * n):
+                specs = [(names[k], [("i", im[k])], [("o",) + om[k]], 0) for k in range(n)]
+                links = [((names[k], "o"), (names[(k + 1) % n], "i")) for k in range(n)]
+                yield specs, links
+
+
+def run_connect_case(case):
+    from checks import c06
+
+    res = dict(n=0, states=0, transitions=0, traces=0, nontrivial=0, counters={}, violations=[])
+    for specs, links in case["shapes"]:
+        specs = [(s[0], [tuple(x) for x in s[1]], [tuple(x) for x in s[2]], s[3]) for s in specs]
+        links = [((l[0][0], l[0][1]), (l[1][0], l[1][1])) for l in links]
+        names = [s[0] for s in specs]
+        orders = [case["order"]] if case.get("order") else list(itertools.permutations(names))
+        for order in orders:
+            bad, out, stuck, ncalls = c06.judge(specs, links, list(order), list(range(len(links))))
+            res["n"] += 1
+            res["traces"] += 1
+            res["transitions"] += ncalls
+            res["states"] += ncalls + 1
+            res["nontrivial"] += 1 if stuck else 0
+            res["counters"]["connect_ring_" + out[0]] = res["counters"].get("connect_ring_" + out[0], 0) + 1
+            for clause, detail in bad:
+                if clause.startswith(("per_call_status", "initial_", "input_info", "status_after")):
+                    continue  # C06's business
+                res["violations"].append(viol(dict(kind="connect_phase_cycle", clause=clause.split(":")[0]), f"connect-phase ring specs={specs} order={order}: {clause}: {detail}", dict(connect=True, shapes=[[specs, links]], order=list(order))))
+    res["sample"] = dict(connect_ring=case["shapes"][0][0])
+    return res
+
+
 def run(tier, seed, agg):
     cs = with_stateless(cases(tier), tier)
     acheck.run_cases(cs, CLAUSES, agg, judge, seed)
+    shapes = list(connect_ring_shapes())
+    for r in pmap(run_connect_case, [dict(shapes=shapes[i : i + 20]) for i in range(0, len(shapes), 20)]):
+        agg.add(r)
     cls = {}
     for c in cs:
         k = classify(c)
@@ -212,6 +256,7 @@ def run(tier, seed, agg):
         level="model_checking",
         rule="rings of 2-3 time components (choice mode: every step is an environment choice from {1,2}) and 4-5 (fixed cyclic step lists), optional chord/tail/pull-based node, delay material of 17 kinds "
         "(none, exact, +1, -0.5, split in 2/3 with pass-through in between, DelayToPull, DelayToPush, up-/downstream of LinearTime) on every link subset (2-rings) or position, all/rotated listing orders. "
+        "Connect-phase cycles: rings of 2-3 components whose initial data / output metadata depend on the predecessor (all mode combinations, all listing orders) must end in the circular-coupling error naming exactly the stuck components (call cap = hang). "
         "Verdict from an independent cycle analysis: unbroken cycle => circular error; combined effective delay >= sum of largest steps => completes with C01/C02 monitors green; otherwise either",
         bound=dict(ring_sizes="2-4" if tier == "quick" else "2-5", horizon_h="5-8"),
         extra=dict(config_classes=cls),
@@ -221,4 +266,6 @@ def run(tier, seed, agg):
 
 
 def replay(case):
+    if case.get("connect"):
+        return run_connect_case(case)["violations"]
     return acheck.replay_case(case, CLAUSES, judge)
